@@ -84,7 +84,7 @@ class AntecedentMonitor:
                 ctx.violation(f"evaluating a loaded grammatical antecedent raises {type(exc).__name__}", {"rule": rule.text, "conjunction": type(conj).__name__, "disjunction": type(disj).__name__, "error": repr(exc)[:200]}, "a degree", repr(exc)[:200])
             return
         for op in (conj, disj):
-            if op is not None and type(op).__name__ not in N.REF:
+            if op is not None and type(op).__name__ not in N.REF and not isinstance(op, (fl.NormLambda, fl.NormFunction)):
                 ctx.hit("out_of_domain:custom operator")
                 return
         text = rule.antecedent.text
@@ -258,6 +258,13 @@ def run(ctx):
                 ov.fuzzy.terms.append(fl.Activated(t, rnd.choice([0.0, 1.0, 0.25, rnd.random()]), fl.Minimum()))
             tname, sname = pairs[i % len(pairs)]
             conj, disj = getattr(fl, tname)(), getattr(fl, sname)()
+            if i % 9 == 4:
+                # operators of the caller's own making (a function, a formula): each does the job it was given for
+                conj = fl.NormLambda(lambda a, b: np.minimum(a, b) * 0.5) if i % 18 == 4 else fl.NormFunction(fl.Function.create("hp", "(a * b) / 2.0"))
+                ctx.hit("workload:conjunction given as a function")
+            if i % 9 == 7:
+                disj = fl.NormLambda(lambda a, b: np.maximum(a, b) * 0.5 + 0.25)
+                ctx.hit("workload:disjunction given as a function")
             variables = spec_inputs + ([spec_out] if rnd.random() < 0.45 else [])
             tree = E.gen_tree(rnd, variables, rnd.randint(1, max_depth))
             if i % 40 == 7:
@@ -429,7 +436,7 @@ def run(ctx):
                 ctx.sample("antecedent", {"text": rule_text, "postfix": E.tree_postfix(tree), "conjunction": tname, "disjunction": sname, "row": rows[0], "degree": rule.activation_degree})
         probe.report(ctx)
         reach.report(ctx)
-    ctx.require("piece:weight written with more than three decimals")
+    ctx.require("piece:weight written with more than three decimals", "workload:conjunction given as a function", "workload:disjunction given as a function")
     ctx.require("event:term replaced by a same-named object, rule loaded again", "event:terms of the duplicated engine tuned after the duplication")
     ctx.require("event:two batches of the same size in a row", "event:fuzzy output emptied and refilled in place between two evaluations", "law:values handed out earlier are left alone", *[f"environment:{e}" for e in ENVIRONMENTS])
     ctx.require("hook:Rule.activate_with", "hook:Antecedent.load", "compare:degree (generator tree)", "compare:postfix (generator tree)", "discriminates:swapped precedence", "discriminates:right associativity", "discriminates:hedge order", "piece:any", "piece:disabled variable", "piece:output variable proposition", "piece:weight", "shape:mixes and/or", "event:rule object reused for another text", "event:a loaded rule is given a text that is rejected", "shape:chain of more than 32 operands", "event:loaded rule given another text and loaded again through its rule block", "event:fuzzy output holds an activation of an equal-named copy of a term", "event:hedges of a loaded proposition edited in place after an evaluation", "route:rule of a duplicated engine (copy)", "route:rule of a duplicated engine (deepcopy)", "route:rule of a duplicated engine (fll)", "input:2-D block of values per variable")
